@@ -5,6 +5,7 @@ import (
 	"go/ast"
 	"go/token"
 	"go/types"
+	"os"
 	"path/filepath"
 	"sort"
 	"strings"
@@ -17,17 +18,19 @@ import (
 
 // World is the loaded program plus all contracts.
 type World struct {
-	boundMu  sync.Mutex
-	boundIdx map[*types.Func]*ssa.Function
-	RepoDir  string
-	SpecDir  string
-	Fset     *token.FileSet
-	Prog     *ssa.Program
-	Pkgs     map[string]*packages.Package
-	SSAPkgs  map[string]*ssa.Package
-	AllTypes map[string]*types.Package // every package reachable (by path)
-	Sorts    *Sorts
-	C        *Contracts
+	fnIDByName map[string]int
+	fnIDMu     sync.Mutex
+	boundMu    sync.Mutex
+	boundIdx   map[*types.Func]*ssa.Function
+	RepoDir    string
+	SpecDir    string
+	Fset       *token.FileSet
+	Prog       *ssa.Program
+	Pkgs       map[string]*packages.Package
+	SSAPkgs    map[string]*ssa.Package
+	AllTypes   map[string]*types.Package // every package reachable (by path)
+	Sorts      *Sorts
+	C          *Contracts
 
 	FuncC    map[*ssa.Function]*FuncContract // by origin function
 	NamedC   map[string]*FuncContract        // functype/interface/extern contracts by key
@@ -463,13 +466,35 @@ func (w *World) ContractOf(fn *ssa.Function) *FuncContract {
 
 // FnID returns the integer identity of a function used as a value.
 func (w *World) FnID(fn *ssa.Function) int {
+	w.fnIDMu.Lock()
+	defer w.fnIDMu.Unlock()
 	if id, ok := w.fnIDs[fn]; ok {
 		return id
 	}
 	if w.fnIDUsed == nil {
 		w.fnIDUsed = map[int]bool{}
 	}
-	id := stableID("fn:"+fnDisplay(fn), func(c int) bool { return w.fnIDUsed[c] })
+	// the SSA builder creates a separate wrapper function for every occurrence of a
+	// method value x.m: all wrappers of one method are the same code and share one
+	// identity (keyed by the method, not by the wrapper's address or its short name)
+	name := fnDisplay(fn)
+	if fn.Synthetic != "" && fn.Object() != nil {
+		name = fn.Synthetic
+		if w.fnIDByName == nil {
+			w.fnIDByName = map[string]int{}
+		}
+		if id, ok := w.fnIDByName[name]; ok {
+			w.fnIDs[fn] = id
+			return id
+		}
+	}
+	id := stableID("fn:"+name, func(c int) bool { return w.fnIDUsed[c] })
+	if os.Getenv("GOVC_DEBUG_FNID") != "" {
+		fmt.Fprintf(os.Stderr, "FnID %p %s syn=%q -> %d\n", fn, fnDisplay(fn), fn.Synthetic, id)
+	}
+	if fn.Synthetic != "" && fn.Object() != nil {
+		w.fnIDByName[name] = id
+	}
 	w.fnIDUsed[id] = true
 	w.fnIDs[fn] = id
 	w.fnByID = append(w.fnByID, fn)
